@@ -11,7 +11,7 @@ def spell(name, k):
 # generator
 # ---------------------------------------------------------------------------
 
-def gen_project(g, tier):
+def gen_project(g, tier, style='general'):
     """
     Units (modules, free subroutines) are drawn in a global order; a unit only
     depends on earlier units (valid Fortran: no circular module dependencies),
@@ -39,6 +39,15 @@ def gen_project(g, tier):
             if g.flip('hasiface', 1, 3):
                 mod['iface'] = {'name': f'gen{k}', 'procs': [f'g{k}_r', f'g{k}_i']}
             pnames = [f'p{k}_{p}' for p in range(g.randint('nprocs', 1, 3))]
+            if g.flip('infix', 1, 6):
+                # a routine whose own name contains a typical transformation suffix
+                pnames = [n.replace('_', g.pick('infixs', ['_test_', '_loki_']), 1) for n in pnames]
+            if style == 'ifs':
+                # one kernel per module, module named after it, no generic interfaces
+                pnames = pnames[:1]
+                mname = f'{pnames[0]}_mod'
+                mod['name'] = mname
+                mod['iface'] = None
             unit_list.append(['mod', mname])
         else:
             mname, mod = None, None
@@ -101,7 +110,7 @@ def gen_project(g, tier):
     dirs = ['', 'a/', 'b/c/']
     rest = list(unit_list)
     while rest:
-        k = g.weighted('perfile', [(1, 5), (2, 2), (3, 1)])
+        k = g.weighted('perfile', [(1, 5), (2, 2), (3, 1)]) if style != 'ifs' else 1
         chunk, rest = rest[:k], rest[k:]
         stem = chunk[0][1]
         files.append({'path': g.pick('dir', dirs) + spell(stem, g.choose('fspell', 3)) +
